@@ -37,7 +37,7 @@ ONE simulator object is then driven through a history of public-attribute change
 by 1-4 decades, cfl changed, velocity replaced incl. zero) with a query after each change, judged against the CURRENT
 attribute values, followed (passive simulators) by a diffusion step with the dt recommended for zero velocity (a limit
 cached at the first query is stale there).  The kernel-level maximum-principle leg hands the SAME scratch flux array object
-(refilled with garbage, ring included) to all 15 calls per shape (a ring reset done only on first sight of an array).
+(refilled with garbage, ring included) to all calls per shape with that layout (a ring reset done only on first sight of an array).
 
 Self-test of the added dimensions: passive_transport_flow_simulators.py:133 kinematic_viscosity=self.kinematic_viscosity ->
 self.__dict__.setdefault("_nu0", self.kinematic_viscosity) (viscosity frozen at the first query) -> VIOLATION
@@ -45,6 +45,30 @@ diffusion-limit-exceeded, witnesses on the 'same-object-history' queries after '
 
 diffusion_flux_2d.py:70 ghost-ring reset of the flux performed only the first time an array object (id) is seen (sed) -> VIOLATION
 diffusion-ring-changed (kernel leg, 2nd and later calls on the reused scratch object).
+
+Workload dimensions added later, kernel-level legs only (``mp`` = diffusion time-step kernels, ``fn`` = the bare time-step function;
+the simulator leg drives whole simulators and is out of scope).  No existing assertion or tolerance was changed; every new execution is
+judged by the same monitors, never bitwise against an execution with another layout:
+  (a) array layout -- mp: every third call runs on a NON-contiguous view of the field (pad / step / fortran, util.noncontiguous_copy) and
+      a second persistent scratch object per shape that is itself a non-contiguous view (so 'same scratch object, refilled' holds for both
+      layouts; results read back with np.ascontiguousarray); fn: every third call gets velocity and magnitude buffer as non-contiguous views.
+  (b) histories of TEMPORARY views -- mp: per kernel object and shape K = 4 calls in a tight loop with field = F[k], diffusion_flux = S[k]
+      (spikes at the limit, noise below, checkerboard with step 0, noise tiny), judged afterwards; fn: every 25th draw K = 4 calls with
+      velocity_field = V[k], velocity_magnitude_field = B[k], each returned dt judged against ITS velocity snapshot.
+  (c) exactly-zero multiplier -- mp: nu_dt_by_dx2 = 0 (python float and real_t) with NaN sentinels in the scratch buffer: besides the
+      maximum principle and the ring the WHOLE field must be unchanged by value (mechanism diffusion-zero-step-changes-field; convex
+      averaging with weight 1 on the cell itself).  fn: nu = 0 was already among the draws; CFL = 0 / prefactor 0 are outside the
+      quantifier (dt must be positive), so nothing was added there.
+  (d) other-precision predecessors -- mp: the same time-step generators for the OTHER precision (identical options), each result called
+      once, before the kernels under observation are generated; fn: one call with real_t = other precision first.
+  Self-test (tools/mut.sh, quick, seed 0; "before" = this module at the preceding commit, run from a git worktree):
+  diffusion_flux_2d.py:70   ghost-ring reset on np.ascontiguousarray(diffusion_flux) (a copy iff the scratch array is not contiguous)   now diffusion-ring-changed ('noncontiguous_views': True only); before HELD (contiguous arrays only)
+  passive_transport_flow_simulators.py:152  velocity_magnitude_field.reshape(-1)[...] = ....reshape(-1)                              now dt-not-finite-positive (fn leg, view calls); before HELD (same reason)
+  diffusion_timestep_3d.py  vector wrapper takes the x component from a module-level dict keyed by id(vector_field)                 before HELD; now diffusion-timestep-raises / diffusion-new-extremum (stale component view)
+  diffusion_timestep_2d.py  flux kernel skipped when nu_dt_by_dx2 == 0 (the stale scratch buffer is still added)                   before HELD; now diffusion-timestep-not-finite at alpha = 0
+  diffusion_timestep_2d.py  prefactor=max(nu_dt_by_dx2, 1e-6)                                                                      now diffusion-zero-step-changes-field only (still a convex averaging)
+  diffusion_timestep_2d.py  generator memoised per (num_threads, fixed_grid_size) without real_t (patch)                            before HELD; now diffusion-timestep-raises (kernel of the other precision served)
+  No false alarm occurred while adding (a)-(d).
 
 Known genuine defect on the pinned tree (F2): the diffusion limit is ``0.9 dx^2/(2d)/nu + tol`` with
 tol = 10 eps, so nu dt/dx^2 = 0.225 + 10 eps nu/dx^2 when the step is diffusion-limited, e.g.
@@ -81,7 +105,8 @@ RULE = (
     "1e-8..1e2, CFL log-uniform 1e-3..1 (and 1), both precisions; per object velocity fields zero / uniform "
     "(signed) / one huge spike / noise / mixed-sign noise with amplitudes 1e-3..1e6, prefactors {1, 0.5, random "
     "in (0,1]}; the same through the bare function with ~thousands of parameter draws; diffusion steps of the "
-    "real kernels and of the passive simulator at alpha in {limit, random below, tiny} on noise / spikes / "
+    "real kernels (alpha in {limit, random below, tiny, exactly 0}; every third call on non-contiguous views; tight-loop histories on "
+    "temporary views; other-precision predecessor first) and of the passive simulator at alpha in {limit, random below, tiny} on noise / spikes / "
     "checkerboard / flat / constant fields.  Non-trivial: velocity not identically zero for the CFL limit, "
     "diffusion-limited regime for the diffusion limit, non-constant field for the maximum principle; "
     "distinct = (class, dim, dtype, velocity kind, regime, nu/dx^2 decade) resp. (path, dim, variant, dtype, "
@@ -116,6 +141,13 @@ REQUIRE = {
     "fn_calls_float64_velocity_float32_real_t": 100,
     "maxprinciple_alpha_python_float": 30, "maxprinciple_alpha_real_t": 30,
     "maxprinciple_steps_first_axis_longer_than_x": 20,
+    # workload dimensions (a)-(d) of the kernel-level legs
+    "maxprinciple_kernel_steps_on_noncontiguous_views": 40,
+    "maxprinciple_kernel_steps_on_temporary_views": 32,
+    "kernel_steps_with_exactly_zero_step_size": 40,
+    "fn_calls_with_noncontiguous_array_arguments": 100,
+    "fn_calls_with_temporary_view_arguments": 60,
+    "other_precision_predecessors": 8,
 }
 SIM_KINDS = ("passive2d", "passive3d", "ns2d", "ns3d")
 VEL_KINDS = ("zero", "uniform", "uniform_neg", "spike", "spike_last", "noise", "noise_abs", "tiny")
@@ -453,6 +485,10 @@ def _run_sim(sh, rec):
             rec.case(("simulator", d, meta["field_type"], sh["dtype"], fk, "limit" if alpha >= 0.99 * lim else "below") if fk != "const" else None)
 
 
+def _other(real_t):
+    return np.float32 if np.dtype(real_t) == np.float64 else np.float64
+
+
 def _run_fn(sh, rec):
     from sopht.simulator.flow.passive_transport_flow_simulators import compute_advection_diffusion_stable_timestep as fn
 
@@ -460,6 +496,17 @@ def _run_fn(sh, rec):
     real_t = util.DT[sh["dtype"]]
     rng = util.rng_for(seed, ID, "fn", sh["idx"])
     n = 300 if tier == "quick" else 1200
+    # predecessor of the OTHER precision: the same function called once with real_t = other precision (arrays, spacing of that type) and
+    # otherwise the argument values of the first real call pattern, before anything of this shard runs
+    other_t = _other(real_t)
+    try:
+        vo = (rng.standard_normal((2, 6, 7)) * 3).astype(other_t)
+        dto = fn(velocity_field=vo, velocity_magnitude_field=np.zeros((6, 7), other_t), grid_dim=2, dx=other_t(0.125), cfl=0.5, kinematic_viscosity=0.01, real_t=other_t)
+        if not (np.isfinite(dto) and dto > 0):
+            raise ValueError(f"dt = {dto}")
+        rec.count("other_precision_predecessors")
+    except Exception as e:
+        rec.note(f"other-precision predecessor failed: {type(e).__name__}: {e}")
     for it in range(n):
         d = int(rng.integers(2, 4))
         shape = util.shape2d(rng, 3, 20, False) if d == 2 else util.shape3d(rng, 3, 10, False)
@@ -479,6 +526,12 @@ def _run_fn(sh, rec):
             rec.count("fn_calls_dx_python_float")
         if vel_arg is not vel:
             rec.count("fn_calls_float64_velocity_float32_real_t")
+        if it % 3 == 2:
+            # array layout: velocity and magnitude buffer are NON-contiguous views holding the same values (halo interior of a padded
+            # allocation / every second cell / column-major); the returned dt must not depend on the strides
+            vel_arg = util.noncontiguous_copy(rng, vel_arg)
+            buf = util.noncontiguous_copy(rng, buf)
+            rec.count("fn_calls_with_noncontiguous_array_arguments")
         v0 = vel_arg.copy()
 
         def get(p, vel=vel_arg, buf=buf, d=d, dx=dx_arg, cfl=cfl, nu=nu):
@@ -486,6 +539,28 @@ def _run_fn(sh, rec):
 
         _check_dt(rec, get, vel_arg, d, float(dx), nu, cfl, real_t, rng, ("function", d, sh["dtype"]), meta)
         rec.check(util.bits_equal(vel_arg, v0), "velocity-modified", f"the time-step function modified the velocity field {meta}", {"meta": meta})
+        if it % 25 == 7:
+            # history of TEMPORARY views: K velocity snapshots of one grid live in one owning array (and K magnitude buffers in another);
+            # K calls in a tight loop with velocity_field = V[k], velocity_magnitude_field = B[k] (fresh view objects of different memory
+            # whose id() CPython recycles); every returned dt is judged afterwards against ITS snapshot
+            K = 4
+            kinds = [VEL_KINDS[int(i)] for i in rng.choice(len(VEL_KINDS), size=K, replace=False)]
+            V = np.stack([_velocity(rng, k_, d, shape, real_t) for k_ in kinds])
+            B = util.sentinel_like(rng, (K, *shape), real_t).copy()
+            try:
+                dts = [fn(velocity_field=V[k], velocity_magnitude_field=B[k], grid_dim=d, dx=dx_arg, cfl=cfl, kinematic_viscosity=nu, real_t=real_t) for k in range(K)]
+            except Exception as e:
+                rec.violation("compute_stable_timestep-raises", f"history of temporary views: {type(e).__name__}: {e} {meta}", {"meta": meta})
+                continue
+            for k in range(K):
+                def get_k(p, k=k, d=d, dx=dx_arg, cfl=cfl, nu=nu):
+                    if p == 1.0:
+                        return dts[k]  # the value returned inside the tight loop
+                    return fn(velocity_field=V[k], velocity_magnitude_field=B[k], grid_dim=d, dx=dx, cfl=cfl, kinematic_viscosity=nu, real_t=real_t) * p
+
+                rec.count("fn_calls_with_temporary_view_arguments")
+                _check_dt(rec, get_k, V[k], d, float(dx), nu, cfl, real_t, rng, ("function", d, sh["dtype"], "temporary-view-history"),
+                          {**meta, "velocity": kinds[k], "history_call": f"{k + 1} of {K} with temporary views of different memory"})
 
 
 def _run_mp(sh, rec):
@@ -496,39 +571,99 @@ def _run_mp(sh, rec):
     eps = util.eps(real_t)
     rng = util.rng_for(seed, ID, "mp", d, sh["dtype"], sh["idx"])
     lim = 0.9 / (2 * d)
+    # predecessors of the OTHER precision: the same generators with otherwise identical options, each result called once, before the
+    # kernels under observation are generated
+    other_t = _other(real_t)
+    try:
+        so = (5, 7) if d == 2 else (4, 5, 6)
+        if d == 2:
+            ko = spne.gen_diffusion_timestep_euler_forward_pyst_kernel_2d(real_t=other_t, num_threads=2)
+            ko(field=rng.standard_normal(so).astype(other_t), diffusion_flux=np.zeros(so, other_t), nu_dt_by_dx2=other_t(0.125))
+            rec.count("other_precision_predecessors")
+        else:
+            for ft in ("scalar", "vector"):
+                ko = spne.gen_diffusion_timestep_euler_forward_pyst_kernel_3d(real_t=other_t, num_threads=2, field_type=ft)
+                if ft == "scalar":
+                    ko(field=rng.standard_normal(so).astype(other_t), diffusion_flux=np.zeros(so, other_t), nu_dt_by_dx2=other_t(0.125))
+                else:
+                    ko(vector_field=rng.standard_normal((3, *so)).astype(other_t), diffusion_flux=np.zeros(so, other_t), nu_dt_by_dx2=other_t(0.125))
+                rec.count("other_precision_predecessors")
+    except Exception as e:
+        rec.note(f"other-precision predecessor failed: {type(e).__name__}: {e}")
     if d == 2:
         kernels = {"scalar": spne.gen_diffusion_timestep_euler_forward_pyst_kernel_2d(real_t=real_t, num_threads=2)}
     else:
         kernels = {ft: spne.gen_diffusion_timestep_euler_forward_pyst_kernel_3d(real_t=real_t, num_threads=2, field_type=ft) for ft in ("scalar", "vector")}
     nshape = 4 if tier == "quick" else 10
     nmp = [0]
+
+    def alpha_of(ak):
+        if ak == "limit":
+            alpha = real_t(lim)
+            if float(alpha) > lim:  # keep the premise: largest representable value <= 0.9/(2d)
+                alpha = np.nextafter(alpha, real_t(0))
+        elif ak == "below":
+            alpha = real_t(lim * rng.uniform(0.05, 1.0))
+        elif ak == "tiny":
+            alpha = real_t(lim * 10.0 ** rng.uniform(-8, -3))
+        else:
+            # EXACTLY zero (inviscid run / dt = 0): the convex averaging has weight 1 on the cell itself, the step must return the field
+            # as it was, whatever the scratch flux buffer holds
+            alpha = real_t(0.0)
+        return alpha
+
+    def judge(variant, kern_shape, fk, ak, alpha, f0, f, meta):
+        comps = [(f0, f)] if variant == "scalar" else [(f0[c], f[c]) for c in range(d)]
+        ncell = 0
+        for o, nw in comps:
+            ncell += _check_maxprinciple(rec, o, nw, eps, "diffusion-timestep", f"diffusion kernel {meta}", {"meta": meta, "f": f0})
+        rec.count("maxprinciple_kernel_steps")
+        rec.count("maxprinciple_cells", ncell)
+        if ak == "limit":
+            rec.count("maxprinciple_at_limit")
+        if ak == "zero":
+            rec.count("kernel_steps_with_exactly_zero_step_size")
+            same = np.asarray(f, np.float64) == np.asarray(f0, np.float64)  # by value: -0.0 == +0.0
+            if not np.all(same):
+                rec.violation("diffusion-zero-step-changes-field", f"nu_dt_by_dx2 = 0: {int((~same).sum())} of {same.size} cells changed {meta}", {"meta": meta, "f": f0, "after": np.array(f)})
+        changed = not util.bits_equal(f, f0)
+        rec.count("kernel_steps_that_changed_the_field", int(changed))
+        return ncell
+
     for variant, kern in kernels.items():
         for k in range(nshape):
             shape = util.shape2d(rng, 3, 40) if d == 2 else util.shape3d(rng, 3, 18)
             if k == 0:
                 shape = (3,) * (d - 1) + (int(rng.integers(4, 12)),)
             # ONE scratch flux array OBJECT per shape, refilled with garbage (ring included) before every call: the 2nd, 3rd, ...
-            # call on the same array object must reset its ghost ring just like the first
-            flux = np.empty(shape, real_t)
-            ncalls_on_flux = 0
+            # call on the same array object must reset its ghost ring just like the first.  A second persistent scratch object of the
+            # same shape is a NON-contiguous view; it serves the calls whose field is a non-contiguous view, too.
+            flux_c = np.empty(shape, real_t)
+            flux_v = util.noncontiguous_copy(rng, flux_c)
+            ncalls_on = {id(flux_c): 0, id(flux_v): 0}
+            ncall_shape = 0
+            full = shape if variant == "scalar" else (d, *shape)
             for fk in FIELD_KINDS:
-                for ak in ("limit", "below", "tiny"):
-                    if ak == "limit":
-                        alpha = real_t(lim)
-                        if float(alpha) > lim:  # keep the premise: largest representable value <= 0.9/(2d)
-                            alpha = np.nextafter(alpha, real_t(0))
-                    elif ak == "below":
-                        alpha = real_t(lim * rng.uniform(0.05, 1.0))
-                    else:
-                        alpha = real_t(lim * 10.0 ** rng.uniform(-8, -3))
-                    full = shape if variant == "scalar" else (d, *shape)
+                for ak in ("limit", "below", "tiny", "zero"):
+                    alpha = alpha_of(ak)
                     f0 = _mp_field(rng, full, fk, real_t)
-                    f = f0.copy()
-                    flux[...] = (1e3 * rng.standard_normal(shape)).astype(real_t)
-                    ncalls_on_flux += 1
-                    if ncalls_on_flux >= 2:
+                    ncall_shape += 1
+                    if ncall_shape % 3 == 2:
+                        # array layout: field and scratch buffer are non-contiguous views of the same values
+                        f = util.noncontiguous_copy(rng, f0)
+                        flux = flux_v
+                        rec.count("maxprinciple_kernel_steps_on_noncontiguous_views")
+                    else:
+                        f = f0.copy()
+                        flux = flux_c
+                    if ak == "zero":
+                        flux[...] = util.sentinel_like(rng, shape, real_t)  # NaNs with distinct payloads
+                    else:
+                        flux[...] = (1e3 * rng.standard_normal(shape)).astype(real_t)
+                    ncalls_on[id(flux)] += 1
+                    if ncalls_on[id(flux)] >= 2:
                         rec.count("maxprinciple_kernel_steps_on_reused_scratch_object")
-                    meta = {"path": "kernel", "dim": d, "variant": variant, "dtype": sh["dtype"], "shape": shape, "field": fk, "alpha": float(alpha)}
+                    meta = {"path": "kernel", "dim": d, "variant": variant, "dtype": sh["dtype"], "shape": shape, "field": fk, "alpha": float(alpha), "noncontiguous_views": flux is flux_v}
                     nmp[0] += 1
                     a_arg = float(alpha) if nmp[0] % 2 else alpha  # same value as python float / as real_t
                     rec.count("maxprinciple_alpha_python_float" if nmp[0] % 2 else "maxprinciple_alpha_real_t")
@@ -543,17 +678,33 @@ def _run_mp(sh, rec):
                         rec.violation("diffusion-timestep-raises", f"{type(e).__name__}: {e} {meta}", {"meta": meta, "f": f0})
                         rec.case(None)
                         continue
-                    comps = [(f0, f)] if variant == "scalar" else [(f0[c], f[c]) for c in range(d)]
-                    ncell = 0
-                    for o, nw in comps:
-                        ncell += _check_maxprinciple(rec, o, nw, eps, "diffusion-timestep", f"diffusion kernel {meta}", {"meta": meta, "f": f0})
-                    rec.count("maxprinciple_kernel_steps")
-                    rec.count("maxprinciple_cells", ncell)
-                    if ak == "limit":
-                        rec.count("maxprinciple_at_limit")
-                    changed = not util.bits_equal(f, f0)
-                    rec.count("kernel_steps_that_changed_the_field", int(changed))
+                    ncell = judge(variant, shape, fk, ak, alpha, f0, np.ascontiguousarray(f), meta)
                     rec.case(("kernel", d, variant, sh["dtype"], fk, ak) if fk != "const" else None, sample={**meta, "cells": ncell})
+            # history of TEMPORARY views on this kernel object: K snapshots of the field live in one owning array, K scratch buffers in
+            # another; K calls in a tight loop with field = F[k], diffusion_flux = S[k] (fresh view objects of different memory whose id()
+            # CPython recycles), each with its own step size (limit, below, zero, tiny); judged afterwards
+            K = 4
+            hk = [("spikes", "limit"), ("noise", "below"), ("checker", "zero"), ("noise", "tiny")]
+            F0 = np.stack([_mp_field(rng, full, fk, real_t) for fk, _ in hk])
+            F = F0.copy()
+            S = np.stack([(1e3 * rng.standard_normal(shape)).astype(real_t) for _ in range(K)])
+            alphas = [alpha_of(ak) for _, ak in hk]
+            meta = {"path": "kernel", "dim": d, "variant": variant, "dtype": sh["dtype"], "shape": shape, "history": "temporary views of different memory"}
+            try:
+                if variant == "scalar":
+                    for j in range(K):
+                        kern(field=F[j], diffusion_flux=S[j], nu_dt_by_dx2=alphas[j])
+                else:
+                    for j in range(K):
+                        kern(vector_field=F[j], diffusion_flux=S[j], nu_dt_by_dx2=alphas[j])
+            except Exception as e:
+                rec.violation("diffusion-timestep-raises", f"{type(e).__name__}: {e} {meta}", {"meta": meta})
+                continue
+            for j, (fk, ak) in enumerate(hk):
+                rec.count("maxprinciple_kernel_steps_on_temporary_views")
+                mj = {**meta, "field": fk, "alpha": float(alphas[j]), "history_call": f"{j + 1} of {K}"}
+                judge(variant, shape, fk, ak, alphas[j], F0[j], F[j], mj)
+                rec.case(("kernel", d, variant, sh["dtype"], fk, ak, "temporary-view-history"))
 
 
 def run_shard(sh, rec):
